@@ -479,8 +479,33 @@ package meta
 // A query is narrowed to ONE hash shard only when the condition pins EVERY tag of the shard key
 // (otherwise it is broadcast): pruning may only remove shards that cannot contain a match.
 //@ func ShardGroupInfo.TargetShards
+//@   requires wfe(condition)
 //@   call (*ShardGroupInfo).ShardFor
 //@     requires ski != nil && i >= len(ski.ShardKey)
+//@     requires ctc(condition)
+// Condition-tree extraction. Abstraction: a nil/empty result means "unconstrained => all shards".
+// ctc(e) ("e constrains the shard choice") is the recursive predicate the property implies: a disjunction
+// constrains only if BOTH sides do (a row matching the unconstrained side may live in any shard), a
+// conjunction if EITHER side does, an equality only if it is `tag = 'literal'`, nothing else does.
+//@ import influxql "github.com/openGemini/openGemini/lib/util/lifted/influx/influxql"
+//@ spec func ctc(e Iface) bool
+//@ axiom forall e Iface :: ctc(e) ==> tagis(e, "*influxql.BinaryExpr")
+//@ axiom forall e Iface :: tagis(e, "*influxql.BinaryExpr") && as(e, "*influxql.BinaryExpr").Op == influxql.OR ==> (ctc(e) == (ctc(as(e, "*influxql.BinaryExpr").LHS) && ctc(as(e, "*influxql.BinaryExpr").RHS)))
+//@ axiom forall e Iface :: tagis(e, "*influxql.BinaryExpr") && as(e, "*influxql.BinaryExpr").Op == influxql.AND ==> (ctc(e) == (ctc(as(e, "*influxql.BinaryExpr").LHS) || ctc(as(e, "*influxql.BinaryExpr").RHS)))
+//@ axiom forall e Iface :: tagis(e, "*influxql.BinaryExpr") && as(e, "*influxql.BinaryExpr").Op == influxql.EQ ==> (ctc(e) == (tagis(as(e, "*influxql.BinaryExpr").LHS, "*influxql.VarRef") && tagis(as(e, "*influxql.BinaryExpr").RHS, "*influxql.StringLiteral")))
+//@ axiom forall e Iface :: tagis(e, "*influxql.BinaryExpr") && as(e, "*influxql.BinaryExpr").Op != influxql.OR && as(e, "*influxql.BinaryExpr").Op != influxql.AND && as(e, "*influxql.BinaryExpr").Op != influxql.EQ ==> !ctc(e)
+// type invariant of condition trees: no typed-nil *BinaryExpr inside an Expr
+//@ spec func wfe(e Iface) bool
+//@ axiom forall e Iface :: wfe(e) && tagis(e, "*influxql.BinaryExpr") ==> as(e, "*influxql.BinaryExpr") != nil && wfe(as(e, "*influxql.BinaryExpr").LHS) && wfe(as(e, "*influxql.BinaryExpr").RHS)
+//@ func getConditionTags
+//@   requires wfe(condition)
+//@   ensures [sound] result != nil ==> ctc(condition)
+//@   assigns elements
+//@ func conditionTagsByBinary
+//@   requires n != nil
+//@   ensures result != nil ==> tagis(n.LHS, "*influxql.VarRef") && tagis(n.RHS, "*influxql.StringLiteral")
+//@   ensures fresh(result)
+//@   assigns nothing
 //@ func HashID
 //@   trusted xxhash of the key bytes (T-hash): a deterministic read-only function
 //@   assigns nothing
